@@ -300,7 +300,7 @@ fn reject_class(err: &str, root: &SNode) -> String {
 
 /// (D) completeness: every generated well-formed schema is accepted.
 pub fn case_wellformed(c: &mut Choices, log: &mut CaseLog) -> CaseResult {
-    let cfg = SgenCfg { max_depth: 5, node_budget: 60, ..SgenCfg::decorated() };
+    let cfg = SgenCfg { max_depth: 5, node_budget: 60, same_simple_names: true, ..SgenCfg::decorated() };
     let node = gen_schema(c, &cfg);
     let text = render_text(&node);
     log.label("case");
